@@ -849,7 +849,7 @@ def run(ck):
         if quick:
             ks = sorted(set(fib_upto(k1) + [k1, k1 + 1, k1 + 2]))
         else:
-            ks = list(range(0, min(k1, 120) + 21)) + [k for k in fib_upto(k1 + 20) if k > 120] + ([k1 + j for j in range(-2, 21)] if k1 > 120 else [])
+            ks = list(range(0, min(k1, 70) + 21)) + [k for k in fib_upto(k1 + 20) if k > 70] + ([k1 + j for j in range(-2, 21)] if k1 > 70 else [])
             ks = sorted(set(k for k in ks if k >= 0))
         K = k1 + 40 if first[p] is not None else 600
         names = [n for n in hs if n != "clearsol-sealed"]
@@ -896,11 +896,11 @@ def run(ck):
         ljobs = []
         lhs = {n: f for n, f in hs.items() if n not in ("mutpd", "mutpd-clear", "clearsol-sealed")}
         for planner in LOCKSTEP_CORE:
-            lseeds = [seeds[planner], r.below(1000)] if quick else [seeds[planner]] + [r.below(1000) for _ in range(3)]
+            lseeds = [seeds[planner], r.below(1000)] if quick else [seeds[planner]] + [r.below(1000) for _ in range(2)]
             for s in lseeds:
                 kk = probe_first_solution(rn, planner, s)[0] or 200
                 kk = min(kk, 400)
-                ks = sorted(set(fib_upto(kk) + [kk, kk + 1, kk + 2])) if quick else list(range(0, min(kk, 150) + 21))
+                ks = sorted(set(fib_upto(kk) + [kk, kk + 1, kk + 2])) if quick else list(range(0, min(kk, 100) + 21))
                 for k in ks:
                     for hn in lhs:
                         ljobs.append((s, hn, k, kk + 40, lhs[hn](k, kk + 40), planner))
